@@ -53,7 +53,7 @@ def requirements(tier):
     return {"histories_exhaustive": 420, "steps_compared": 1500, "signature_compared": 1500, "probe_compared": 1500,
             "retain_true_all_live_checked": 200, "second_call_identical_checked": 100, "both_raised": 100,
             "w_torchjd_retain_false_on_saved_graph": 200, "w_graph_without_saved_tensors": 50, "w_chunked_retain_false": 50,
-            "w_mtl_retain_false": 100, "w_freed_nodes_seen": 200}
+            "w_mtl_retain_false": 100, "w_freed_nodes_seen": 200, "w_overlapping_explicit_task_lists": 50}
 
 
 def gen_program(rng, linear):
@@ -72,7 +72,7 @@ def all_params(desc):
     return None
 
 
-def do_step(kind, retain, chunk, b, desc, torchjd_side, listed):
+def do_step(kind, retain, chunk, b, desc, torchjd_side, listed, lists="default"):
     """Runs one step on a built graph.  Returns None or the exception."""
     from torchjd import backward, mtl_backward
     t = len(b.losses)
@@ -84,6 +84,12 @@ def do_step(kind, retain, chunk, b, desc, torchjd_side, listed):
             agg = aggs.make({"name": "Sum"}, torch.float64)
             if kind == "bw":
                 backward(b.losses, agg, inputs=params, retain_graph=retain, parallel_chunk_size=k)
+            elif lists == "union":
+                # explicit parameter lists that OVERLAP although the heads share no graph node: every task lists the union of
+                # all tasks' parameters (the ones a loss does not depend on just receive zeros) - same nodes touched as the defaults
+                union = [C02.leaf_of(b, list(r)) for r in sorted({tuple(x) for refs in task_l for x in refs})]
+                mtl_backward(b.losses, list(b.features), agg, tasks_params=[list(union) for _ in b.losses],
+                             shared_params=[C02.leaf_of(b, r) for r in shared_l], retain_graph=retain, parallel_chunk_size=k)
             else:
                 mtl_backward(b.losses, list(b.features), agg, retain_graph=retain, parallel_chunk_size=k)
         elif kind in ("bw", "mtl", "ag_bw"):
@@ -122,6 +128,9 @@ def check_case(case, ctx):
     if any(tuple(r) in sset for refs in listed[1] for r in refs) or not listed[0]:
         ctx.not_judged("overlap_or_empty_shared")
         return
+    lists = case.get("lists", "default")
+    if lists == "union" and len(b.losses) >= 2:
+        ctx.count("w_overlapping_explicit_task_lists")
     sig0 = P.freed_signature(list(b.losses) + list(b.features))
     has_saved = any(s == "live" for _, st in sig0 for _, s in st)
     vio = None
@@ -129,7 +138,7 @@ def check_case(case, ctx):
     for si, (kind, retain, chunk) in enumerate(case["history"]):
         label = f"{si}:{kind}/retain={retain}/chunk={chunk}"
         grads_before = [None if l.grad is None else l.grad.detach().clone() for l in b.shared + b.pool]
-        e1 = do_step(kind, retain, chunk, b, desc, True, listed)
+        e1 = do_step(kind, retain, chunk, b, desc, True, listed, lists)
         e2 = do_step(kind, retain, chunk, twin, desc, False, listed)
         ctx.count("steps_compared")
         if kind in ("bw", "mtl") and not retain and has_saved:
@@ -169,7 +178,7 @@ def check_case(case, ctx):
                 break
             # an identical second call adds an identical update
             g1 = [None if l.grad is None else l.grad.detach().clone() for l in b.shared + b.pool]
-            e = do_step(kind, retain, chunk, b, desc, True, listed)
+            e = do_step(kind, retain, chunk, b, desc, True, listed, lists)
             e_t = do_step(kind, retain, chunk, twin, desc, False, listed)
             if e is not None:
                 vio = ("second_identical_call_failed", {"step": label, "error": repr(e)[:200]})
@@ -201,12 +210,13 @@ def run_shard(shard, ctx):
         for hi in shard["hist"]:
             for p in range(shard["progs"]):
                 hist = [list(s) for s in H[hi]]
-                run_cases(ctx, rng, 1, lambda r, i: {"program": gen_program(r, linear=(p % 4 == 3)), "history": hist}, check_case)
+                run_cases(ctx, rng, 1, lambda r, i: {"program": gen_program(r, linear=(p % 4 == 3)), "history": hist,
+                                                     "lists": "union" if r.random() < 0.3 else "default"}, check_case)
             ctx.count("histories_exhaustive")
     else:
         def gen(r, i):
             hist = [list(STEP_KINDS[int(r.integers(len(STEP_KINDS)))]) for _ in range(3)]
-            return {"program": gen_program(r, linear=bool(r.random() < 0.15)), "history": hist}
+            return {"program": gen_program(r, linear=bool(r.random() < 0.15)), "history": hist, "lists": "union" if r.random() < 0.3 else "default"}
         run_cases(ctx, rng, shard["n"], gen, check_case)
 
 
